@@ -12,11 +12,27 @@ transmission:
 Fragment: int literals, `fft_size`, `indexes[k]` (k literal 0..2), `+ - * // %`,
 unary minus, `max`/`min`/`abs`, `len(range(*indexes))`, `len(range(a, b, c))`,
 `len(carrier_indexes)`.  Anything else raises (=> "tie broken").
+
+Equivalent spellings (harmless rewrites keep the tie):
+  * the decision may live in a private helper: `block_size = self._helper(fft_size, carrier_indexes)` is
+    replaced by the helper's body (`harness.gen.norm.splice_call`: parameters bound to the arguments, every
+    `return e` leaf becoming `block_size = e`), and guard clauses / `is not None` tests are brought to the
+    if/else normal form first
+  * inside a branch, `block_size` may be computed through locals (`n = len(carrier_indexes); ...;
+    block_size = n`) and through an inner if/else on integer comparisons (emitted as a Lean `if`); locals are
+    substituted in order, a name assigned anything outside the fragment is unusable afterwards
+  * `start, stop, step = carrier_indexes.indices(fft_size)` == `indexes = ...` + `indexes[0..2]`
+  * statements that assign nothing (`assert`, guards that only raise — IndexError for out-of-range indexes,
+    the OverflowError `len()` itself raises for a length above `sys.maxsize`) are not part of the emitted
+    expressions, as before; they are covered by the correspondence check of the property
+A closed-form spelling of `len(range(a, b, c))` is emitted AS WRITTEN; `Proofs/C03Py.lean`
+(`blockSizeSlice_eq`) proves it equal to `pyRangeLen` for `c != 0` (lemma `rangeLenClosed`).
 """
 import ast
 import os
 
 from harness.translate import TranslateError, parse_file, find_fn, HEADER
+from harness.gen import norm
 
 FILE = 'pyphysim/channels/fading.py'
 
@@ -24,17 +40,18 @@ FILE = 'pyphysim/channels/fading.py'
 class E:
     """expression translator; env maps Python names to Lean terms"""
 
-    def __init__(self, env, idx_name=None):
-        self.env = env
-        self.idx = idx_name
+    def __init__(self, env):
+        self.env = env          # name -> Lean term; `<name>.indices` marks the tuple returned by
+                                # `carrier_indexes.indices(fft_size)`, `<name>.len` the length of a sequence
 
     def tr(self, e):
         if isinstance(e, ast.Constant) and isinstance(e.value, int) and not isinstance(e.value, bool):
             return '(%d : Int)' % e.value
         if isinstance(e, ast.Name) and e.id in self.env:
             return self.env[e.id]
-        if (isinstance(e, ast.Subscript) and isinstance(e.value, ast.Name) and e.value.id == self.idx
-                and isinstance(e.slice, ast.Constant) and e.slice.value in (0, 1, 2)):
+        if (isinstance(e, ast.Subscript) and isinstance(e.value, ast.Name) and e.value.id + '.indices' in self.env
+                and isinstance(e.slice, ast.Constant) and e.slice.value in (0, 1, 2)
+                and isinstance(e.slice.value, int)):
             return 'i%d' % e.slice.value
         if isinstance(e, ast.UnaryOp) and isinstance(e.op, ast.USub):
             return '(- %s)' % self.tr(e.operand)
@@ -63,11 +80,19 @@ class E:
                 if isinstance(a, ast.Call) and isinstance(a.func, ast.Name) and a.func.id == 'range':
                     r = a.args
                     if (len(r) == 1 and isinstance(r[0], ast.Starred) and isinstance(r[0].value, ast.Name)
-                            and r[0].value.id == self.idx):
+                            and r[0].value.id + '.indices' in self.env):
                         return '(pyRangeLen i0 i1 i2)'
                     if len(r) == 3 and not any(isinstance(x, ast.Starred) for x in r):
                         return '(pyRangeLen %s %s %s)' % tuple(self.tr(x) for x in r)
         raise TranslateError('C03 fragment: unsupported expression ' + ast.dump(e)[:160])
+
+    CMP = {ast.Lt: '<', ast.LtE: '≤', ast.Gt: '>', ast.GtE: '≥', ast.Eq: '=', ast.NotEq: '≠'}
+
+    def cond(self, t):
+        """comparison of two integer expressions -> Lean Prop (decidable on Int)"""
+        if isinstance(t, ast.Compare) and len(t.ops) == 1 and type(t.ops[0]) in self.CMP:
+            return '(%s %s %s)' % (self.tr(t.left), self.CMP[type(t.ops[0])], self.tr(t.comparators[0]))
+        raise TranslateError('C03 fragment: unsupported condition ' + ast.dump(t)[:160])
 
 
 def _is_none_test(t, name):
@@ -82,44 +107,122 @@ def _is_slice_test(t, name):
             and isinstance(t.args[1], ast.Name) and t.args[1].id == 'slice')
 
 
-def _assign_to(stmts, name):
-    out = [s for s in stmts if isinstance(s, ast.Assign) and len(s.targets) == 1
-           and isinstance(s.targets[0], ast.Name) and s.targets[0].id == name]
-    if len(out) != 1:
-        raise TranslateError('expected exactly one assignment to %s, found %d' % (name, len(out)))
-    return out[0].value
+def _stores(stmts):
+    return {n.id for s in stmts for n in ast.walk(s) if isinstance(n, ast.Name) and isinstance(n.ctx, ast.Store)}
+
+
+def _is_indices_call(v):
+    return (isinstance(v, ast.Call) and isinstance(v.func, ast.Attribute) and v.func.attr == 'indices'
+            and isinstance(v.func.value, ast.Name) and v.func.value.id == 'carrier_indexes' and len(v.args) == 1
+            and not v.keywords and isinstance(v.args[0], ast.Name) and v.args[0].id == 'fft_size')
+
+
+def _forget(env, names):
+    for n in names:
+        for k in (n, n + '.indices', n + '.len'):
+            env.pop(k, None)
+
+
+def run_branch(stmts, env, slice_branch=False):
+    """the integer locals of a branch after its statements, as Lean terms (name -> term).  Straight-line
+    assignments are substituted in order; an if/else on an integer comparison joins the two sides with a Lean
+    `if`; a side that ends in `raise` contributes nothing; a name assigned anything outside the fragment is
+    forgotten (so using it later leaves the fragment)."""
+    env = dict(env)
+    for s in stmts:
+        if isinstance(s, ast.Assign) and len(s.targets) == 1:
+            t, v = s.targets[0], s.value
+            if slice_branch and _is_indices_call(v):
+                # (i0, i1, i2) = carrier_indexes.indices(fft_size)
+                if isinstance(t, ast.Name):
+                    _forget(env, [t.id])
+                    env[t.id + '.indices'] = True
+                    continue
+                if isinstance(t, ast.Tuple) and len(t.elts) == 3 and all(isinstance(x, ast.Name) for x in t.elts) \
+                        and len({x.id for x in t.elts}) == 3:
+                    _forget(env, [x.id for x in t.elts])
+                    for k, x in enumerate(t.elts):
+                        env[x.id] = 'i%d' % k
+                    continue
+            if isinstance(t, ast.Name):
+                try:
+                    term = E(env).tr(v)
+                except TranslateError:
+                    term = None
+                _forget(env, [t.id])
+                if term is not None:
+                    env[t.id] = term
+                continue
+            _forget(env, _stores([s]))
+        elif isinstance(s, ast.If):
+            try:
+                c = E(env).cond(s.test)
+            except TranslateError:
+                c = None
+            ea, eb = run_branch(s.body, env, slice_branch), run_branch(s.orelse, env, slice_branch)
+            ta, tb = norm.terminates(s.body), norm.terminates(s.orelse)
+            if ta and tb:
+                return env                          # nothing after it is reached
+            for n in sorted(_stores(s.body) | _stores(s.orelse)):
+                va, vb = ea.get(n), eb.get(n)
+                _forget(env, [n])
+                if ta or tb:
+                    v = vb if ta else va
+                    if v is not None:
+                        env[n] = v
+                elif va is not None and vb is not None and not isinstance(va, bool):
+                    env[n] = va if va == vb else ('(if %s then %s else %s)' % (c, va, vb) if c is not None else None)
+                    if env[n] is None:
+                        del env[n]
+        elif isinstance(s, ast.Return):
+            raise TranslateError('return inside the block-size decision')
+        elif isinstance(s, (ast.Expr, ast.Assert, ast.Raise, ast.Pass)):
+            continue
+        else:
+            _forget(env, _stores([s]))
+    return env
+
+
+def _value(env, name, what):
+    if not isinstance(env.get(name), str):
+        raise TranslateError('%s: `%s` is not computed inside the fragment' % (what, name))
+    return env[name]
+
+
+def block_size_decision(tree, fn):
+    """the statements deciding `block_size`, in if/else normal form (a private helper is inlined)"""
+    cls = [n for n in tree.body if isinstance(n, ast.ClassDef) and n.name == 'TdlChannel']
+    lookup = norm.private_lookup(module=tree, classes=cls)
+    for s in fn.body:
+        if isinstance(s, ast.If) and 'block_size' in _stores([s]) and 'carrier_indexes' in ast.unparse(s.test):
+            return norm.tail_form([norm.canon_fn(s)], False)
+        if isinstance(s, ast.Assign) and len(s.targets) == 1 and isinstance(s.targets[0], ast.Name) \
+                and s.targets[0].id == 'block_size':
+            sp = norm.splice_call(s, lookup)
+            if sp is not None:
+                return norm.tail_form(sp, False)
+    raise TranslateError('block-size decision `if carrier_indexes is None:` not found')
 
 
 def gen_slice(repo):
     tree = parse_file(os.path.join(repo, FILE))
     fn = find_fn(tree, 'corrupt_data_in_freq_domain', cls='TdlChannel')
-    top = None
-    for s in fn.body:
-        if isinstance(s, ast.If) and _is_none_test(s.test, 'carrier_indexes') \
-                and any(isinstance(x, ast.Assign) and isinstance(x.targets[0], ast.Name)
-                        and x.targets[0].id == 'block_size' for x in s.body):
-            top = s
-            break
-    if top is None:
+    decision = block_size_decision(tree, fn)
+    tops = [s for s in decision if isinstance(s, ast.If)]
+    if len(tops) != 1 or not _is_none_test(tops[0].test, 'carrier_indexes') or 'block_size' in _stores(
+            [s for s in decision if s is not tops[0]]):
         raise TranslateError('block-size decision `if carrier_indexes is None:` not found')
-    e_all = E({'fft_size': 'fft'}).tr(_assign_to(top.body, 'block_size'))
+    top = tops[0]
+    base = {'fft_size': 'fft'}
+    e_all = _value(run_branch(top.body, base), 'block_size', 'carrier_indexes is None')
     inner = [s for s in top.orelse if isinstance(s, ast.If)]
-    if len(inner) != 1 or not _is_slice_test(inner[0].test, 'carrier_indexes'):
+    if len(inner) != 1 or not _is_slice_test(inner[0].test, 'carrier_indexes') or 'block_size' in _stores(
+            [s for s in top.orelse if s is not inner[0]]):
         raise TranslateError('`if isinstance(carrier_indexes, slice):` not found')
     inner = inner[0]
-    # indexes = carrier_indexes.indices(fft_size)
-    idx_name = None
-    for s in inner.body:
-        if (isinstance(s, ast.Assign) and isinstance(s.targets[0], ast.Name)
-                and isinstance(s.value, ast.Call) and isinstance(s.value.func, ast.Attribute)
-                and s.value.func.attr == 'indices' and isinstance(s.value.func.value, ast.Name)
-                and s.value.func.value.id == 'carrier_indexes' and len(s.value.args) == 1
-                and isinstance(s.value.args[0], ast.Name) and s.value.args[0].id == 'fft_size'):
-            idx_name = s.targets[0].id
-    if idx_name is None:
-        raise TranslateError('`<name> = carrier_indexes.indices(fft_size)` not found')
-    e_slice = E({'fft_size': 'fft'}, idx_name).tr(_assign_to(inner.body, 'block_size'))
-    e_idx = E({'fft_size': 'fft', 'carrier_indexes.len': 'len'}).tr(_assign_to(inner.orelse, 'block_size'))
+    e_slice = _value(run_branch(inner.body, base, slice_branch=True), 'block_size', 'slice branch')
+    e_idx = _value(run_branch(inner.orelse, dict(base, **{'carrier_indexes.len': 'len'})), 'block_size',
+                   'index-array branch')
     # the per-block fading schedule inside the `for i in range(num_full_blocks)` loop
     loops = [s for s in fn.body if isinstance(s, ast.For)]
     if len(loops) != 1:
